@@ -56,10 +56,10 @@ func rulePDF417Arith(c *Ctx) {
 			}
 			if ia, ok := s.Addr.(*ssa.IndexAddr); ok && ia.X == ssa.Value(ec) {
 				if h := enclosingLoopHeader(b); h != nil {
-					if _, _, _, isCount := loopIndex(h); isCount {
-						finalSt = s
+					if h.Idom() != nil && enclosingLoopHeader(h.Idom()) != nil {
+						st = s // nested in the data loop: the recurrence
 					} else {
-						st = s
+						finalSt = s
 					}
 				}
 			}
@@ -70,14 +70,8 @@ func rulePDF417Arith(c *Ctx) {
 		}
 		inner := enclosingLoopHeader(st.Block())
 		outer := enclosingLoopHeader(inner.Idom())
-		var iphi *ssa.Phi
-		for _, ins := range inner.Instrs {
-			if p, ok := ins.(*ssa.Phi); ok && isIntType(p.Type()) {
-				iphi = p
-			}
-		}
-		if outer == nil || iphi == nil {
-			c.Undecided(R, "pdf417.Compute/loops", st.Pos(), "data loop / register loop not found")
+		if outer == nil {
+			c.Undecided(R, "pdf417.Compute/loops", st.Pos(), "data loop not found")
 			return
 		}
 		vidx, _, vinit, ok := loopIndex(outer)
@@ -86,23 +80,22 @@ func rulePDF417Arith(c *Ctx) {
 			return
 		}
 		n.Bind[vidx] = "v"
-		n.Bind[iphi] = "i"
 		c.expectCond(R, "pdf417.Compute/every-codeword", outer.Instrs[0].Pos(), n.EdgeCond(outer, outer.Succs[0]), "v < len(data)")
 		// the register loop runs for every codeword (no early continue)
 		c.expectCond(R, "pdf417.Compute/register-loop-always", inner.Instrs[0].Pos(), n.ReachCond(fn, outer.Succs[0], inner), "true")
-		for ei, e := range iphi.Edges {
-			if inner.Dominates(inner.Preds[ei]) {
-				c.expectPoly(R, "pdf417.Compute/i-step", iphi.Pos(), n, e, "i - 1")
-			} else {
-				c.expectPoly(R, "pdf417.Compute/i-start", iphi.Pos(), n, e, "k - 1")
-			}
-		}
-		c.expectCond(R, "pdf417.Compute/i-while", iphi.Pos(), n.EdgeCond(inner, inner.Succs[0]), "i >= 0")
+		// registers are rewritten front to back: q = index written, whatever the loop variable is
 		ia := st.Addr.(*ssa.IndexAddr)
-		c.expectPoly(R, "pdf417.Compute/store-index", st.Pos(), n, ia.Index, "k - 1 - i")
+		first, step, while, okR := reindexLoop(n, inner, ia.Index)
+		if !okR {
+			c.Undecided(R, "pdf417.Compute/register-loop", st.Pos(), "register index is not an affine function of the loop variable")
+			return
+		}
+		c.Check(R, "pdf417.Compute/order", st.Pos(), pEqual(first, pConst(0)) && pEqual(step, pConst(1)), "registers written in the order 0, 1, 2, ...", fmt.Sprintf("first %s, step %s", first, step))
+		c.expectCondC(R, "pdf417.Compute/all-registers", st.Pos(), while, MustRefCond("q <= k - 1"))
 		checkCases(c, R, "pdf417.Compute/recurrence", st.Pos(), n.valueCases(fn, inner.Succs[0], st.Val, 0), []edgeSpec{
-			{"(0 + 929 - (((data[v] + e[0])%929)*f[i])%929)%929", "i <= 0"},
-			{"(e[k - i] + 929 - (((data[v] + e[0])%929)*f[i])%929)%929", "i > 0"}})
+			{"(0 + 929 - (((data[v] + e[0])%929)*f[k - 1 - q])%929)%929", "q >= k - 1"},
+			{"(e[q + 1] + 929 - (((data[v] + e[0])%929)*f[k - 1 - q])%929)%929", "q < k - 1"}})
+		n.env = n.env[:len(n.env)-1]
 		// final complement
 		fh := enclosingLoopHeader(finalSt.Block())
 		if fidx, _, finit, ok := loopIndex(fh); ok && finit == 0 {
@@ -313,22 +306,29 @@ func ruleGFPolyArith(c *Ctx) {
 					if sl, ok := cp.Common().Args[1].(*ssa.Slice); ok && sl.High != nil {
 						c.expectPoly(R, "utils.(*GFPoly).AddOrSubstract/prefix-len", cp.Pos(), n, sl.High, "len(L) - len(S)")
 					}
-					if h := enclosingLoopHeader(xorCall.Block()); h != nil {
-						for _, ins := range h.Instrs {
-							if p, ok := ins.(*ssa.Phi); ok && isIntType(p.Type()) {
-								n.Bind[p] = "i"
-								for ei, e := range p.Edges {
-									if !h.Dominates(h.Preds[ei]) {
-										c.expectPoly(R, "utils.(*GFPoly).AddOrSubstract/loop-start", p.Pos(), n, e, "len(L) - len(S)")
-									}
-								}
+					// the combining loop, expressed through the result index q that is written
+					var resSt *ssa.Store
+					eachInstr(fn, func(b2 *ssa.BasicBlock, ins ssa.Instruction) {
+						if s2, ok := ins.(*ssa.Store); ok {
+							if ia, ok := s2.Addr.(*ssa.IndexAddr); ok && ia.X == ssa.Value(mk) {
+								resSt = s2
 							}
 						}
-						c.expectCond(R, "utils.(*GFPoly).AddOrSubstract/loop-while", xorCall.Pos(), n.EdgeCond(h, h.Succs[0]), "i < len(L)")
-						args := []string{n.Norm(xorCall.Common().Args[1]).String(), n.Norm(xorCall.Common().Args[2]).String()}
-						sort.Strings(args)
-						want := []string{"L[i]", "S[" + MustRef("i - (len(L) - len(S))").String() + "]"}
-						c.Check(R, "utils.(*GFPoly).AddOrSubstract/combine", xorCall.Pos(), fmt.Sprint(args) == fmt.Sprint(want), fmt.Sprint(want), fmt.Sprint(args))
+					})
+					if h := enclosingLoopHeader(xorCall.Block()); h != nil && resSt != nil {
+						first, step, while, okR := reindexLoop(n, h, resSt.Addr.(*ssa.IndexAddr).Index)
+						if !okR {
+							c.Undecided(R, "utils.(*GFPoly).AddOrSubstract/loop", xorCall.Pos(), "result index is not an affine function of the loop variable")
+						} else {
+							c.Check(R, "utils.(*GFPoly).AddOrSubstract/loop-start", xorCall.Pos(), pEqual(first, MustRef("len(L) - len(S)")) && pEqual(step, pConst(1)), "q from len(L)-len(S) step 1", fmt.Sprintf("first %s, step %s", first, step))
+							c.expectCondC(R, "utils.(*GFPoly).AddOrSubstract/loop-while", xorCall.Pos(), while, MustRefCond("q < len(L)"))
+							args := []string{n.Norm(xorCall.Common().Args[1]).String(), n.Norm(xorCall.Common().Args[2]).String()}
+							sort.Strings(args)
+							want := []string{"L[q]", "S[" + MustRef("q - (len(L) - len(S))").String() + "]"}
+							c.Check(R, "utils.(*GFPoly).AddOrSubstract/combine", xorCall.Pos(), fmt.Sprint(args) == fmt.Sprint(want), fmt.Sprint(want), fmt.Sprint(args))
+							c.Check(R, "utils.(*GFPoly).AddOrSubstract/combine-stored", resSt.Pos(), strip(resSt.Val) == ssa.Value(xorCall) || strings.Contains(n.Norm(resSt.Val).String(), "AddOrSub"), "the combined value is stored at q", n.Norm(resSt.Val).String())
+							n.env = n.env[:len(n.env)-1]
+						}
 					}
 				}
 			}
